@@ -8,6 +8,11 @@
    the size == 0 test) and e367940 (a length prefix that cannot be read is a parse failure); both code shapes are
    translator targets, so reverting either breaks the translator (and e367940 re-opens SEHang.dec_len_prog).
 
+   Scalar kinds: bool, int8..int64, uint8..uint64, float, double and enums with underlying int8/uint8/int32/uint32/
+   int64/uint64.  The varint width each trait of scalar.h WRITES, READS and SIZES with (32 bit macro group, 64 bit
+   macro group, enum trait) and the float/double byte widths are regenerated (Gen: *_write_bits/_read_bits/_size_bits)
+   and feed sk_encode/dec_scalar/sk_size; SEProofs.sk_encode_spec/sk_size_spec/dec_scalar_spec pin them to the widths
+   the C++ value ranges need, so narrowing one (e.g. the enum trait to 32 bits) breaks the translator or these lemmas.
    Proved for ALL values of ALL types of the universe (incl. sets, maps):  c11_size_exact.
    Proved for ALL byte strings and ALL types (incl. sets, maps, ill-formed schemas), debug and NDEBUG:
    c11_parse_terminates (flat array / string / stream under an enclosing limit: the result is never Hang) and
